@@ -716,8 +716,13 @@ func main() {
 	tier := flag.String("tier", "quick", "quick|thorough")
 	replay := flag.String("replay", "", "replay file")
 	nexpr := flag.Int("nexpr", 300, "expression sequences (K2)")
+	extractFields := flag.String("extract-fields", "", "translator mode: list the fields of the Rule* types of the package in this directory")
+	gen := flag.String("gen", "GenRuleFields.v", "output of -extract-fields")
 	nstate := flag.Int("nstate", 150, "state traces (K1)")
 	flag.Parse()
+	if *extractFields != "" {
+		os.Exit(doExtractFields(*extractFields, *gen))
+	}
 	if *replay != "" {
 		os.Exit(doReplay(*replay))
 	}
